@@ -912,6 +912,48 @@ func numOnePeriod(s *numStats, dr *h.Driver, ns int64) {
 			if 2*(dw-(end-t4)) > sec || 2*((end-t5)-dw) > sec {
 				fail("MarshalJSON wrote %s for an end %v away", js, time.Duration(end-t4))
 			}
+			// the same period handed to the encoder in every position a Go value can take (the application
+			// may marshal a copy, a map element, a value inside an interface): each must be written as the
+			// remaining duration too — encoding/json only finds a marshaller of the VALUE's method set there
+			tv0 := now()
+			forms := []struct {
+				name string
+				v    any
+				path []string
+			}{
+				{"value", *tp, nil},
+				{"map element", map[string]model.TimePeriodType{"p": *tp}, []string{"p"}},
+				{"interface element", []any{*tp}, nil},
+				{"struct field by value", struct {
+					P model.TimePeriodType `json:"p"`
+				}{*tp}, []string{"p"}},
+			}
+			for _, f := range forms {
+				fj, ferr := json.Marshal(f.v)
+				tv1 := now()
+				var raw any
+				if ferr != nil || json.Unmarshal(fj, &raw) != nil {
+					fail("MarshalJSON (%s): %s %v", f.name, fj, ferr)
+					continue
+				}
+				if l, ok := raw.([]any); ok && len(l) == 1 {
+					raw = l[0]
+				}
+				for _, k := range f.path {
+					if m, ok := raw.(map[string]any); ok {
+						raw = m[k]
+					}
+				}
+				m, _ := raw.(map[string]any)
+				et, _ := m["endTime"].(string)
+				pv, pverr := period.Parse(et)
+				dv := int64(pv.DurationApprox())
+				if m == nil || pverr != nil {
+					fail("as %s the period is written as %s: not a relative end time", f.name, fj)
+				} else if 2*(dv-(end-tv0)) > sec || 2*((end-tv1)-dv) > sec {
+					fail("as %s the period is written as %s for an end %v away", f.name, fj, time.Duration(end-tv0))
+				}
+			}
 			t6 := now()
 			var tp2 model.TimePeriodType
 			err := json.Unmarshal(js, &tp2)
